@@ -43,6 +43,8 @@ type Profile struct {
 	// IntArithOnOutputs allows arithmetic / int functions over integers produced by plugins
 	// (known finding K3 while open).
 	IntArithOnOutputs bool
+	// TagHeavy places trees of tags in most `any` fields and outputs (C15).
+	TagHeavy bool
 	// RichInput adds generated input fields (bounds, defaults, nested objects, maps).
 	RichInput bool
 	// ClosedRefs allows references to closed.result and crashed.error (open finding K14 when
@@ -447,6 +449,9 @@ func GenCase(t *rapid.T, p Profile, prop string) *Case {
 func (g *genCtx) genOutputLeaf(label string) *Val {
 	t := g.t
 	kinds := []string{"int", "string", "bool", "list_int", "obj", "map"}
+	if g.p.TagHeavy && len(g.pick("obj", false)) > 0 && rapid.IntRange(0, 9).Draw(t, label+".tagtree?") < 6 {
+		return g.genTagTree(label, 2)
+	}
 	if g.p.Tags && rapid.IntRange(0, 9).Draw(t, label+".tag?") < 3 {
 		if v := g.genTag(label, false); v != nil {
 			return v
@@ -463,6 +468,54 @@ func (g *genCtx) genOutputLeaf(label string) *Val {
 		return ExprVal(e)
 	}
 	return LitVal(g.genLit("string", label))
+}
+
+// genTagTree generates a map / list structure with several tags (nested one-ofs included).
+func (g *genCtx) genTagTree(label string, depth int) *Val {
+	t := g.t
+	n := rapid.IntRange(1, 3).Draw(t, label+".n")
+	if rapid.IntRange(0, 3).Draw(t, label+".list?") == 0 {
+		v := &Val{K: "list"}
+		for i := 0; i < n; i++ {
+			// list items must have one type: objects holding a tag each
+			item := &Val{K: "map"}
+			if tv := g.genTag(fmt.Sprintf("%s.%d", label, i), true); tv != nil {
+				item.Set("t", tv)
+			} else {
+				item.Set("t", LitVal(StrLit("x")))
+			}
+			v.Vals = append(v.Vals, item)
+		}
+		g.label("tagtree:list")
+		return v
+	}
+	v := &Val{K: "map"}
+	for i := 0; i < n; i++ {
+		key := fmt.Sprintf("t%d", i)
+		lbl := fmt.Sprintf("%s.%s", label, key)
+		switch {
+		case depth > 0 && rapid.IntRange(0, 3).Draw(t, lbl+".nest?") == 0:
+			v.Set(key, g.genTagTree(lbl, depth-1))
+		case depth > 0 && rapid.IntRange(0, 4).Draw(t, lbl+".nestedoneof?") == 0:
+			// a one-of whose option is an object that itself holds a tag
+			inner := g.genTag(lbl+".inner", true)
+			if inner == nil {
+				inner = LitVal(StrLit("x"))
+			}
+			v.Set(key, &Val{K: "oneof", Disc: "kind", Keys: []string{"only"}, Vals: []*Val{MapVal([]string{"inner", "c"}, []*Val{inner, LitVal(StrLit("const"))})}})
+			g.label("tag:nested-oneof")
+		default:
+			if tv := g.genTag(lbl, true); tv != nil {
+				v.Set(key, tv)
+			} else {
+				v.Set(key, LitVal(StrLit("x")))
+			}
+		}
+	}
+	if n >= 2 {
+		g.label("tagtree:several-tags-in-one-object")
+	}
+	return v
 }
 
 // genTag generates a tagged value. inStep tells whether it is destined for a step's `any` field.
@@ -536,7 +589,12 @@ func (g *genCtx) genStep(c *Case, i int, wide bool) {
 				in.Set(f.name, g.genTypedVal(f.typ, lbl+"."+f.name))
 			}
 		}
-		if rapid.IntRange(0, 9).Draw(t, lbl+".any?") < 3 {
+		if p.TagHeavy && len(g.pick("obj", false)) > 0 && rapid.IntRange(0, 9).Draw(t, lbl+".tagtree?") < 7 {
+			in.Set("any", g.genTagTree(lbl+".any", 2))
+			if rapid.Bool().Draw(t, lbl+".tagtree2?") {
+				in.Set("any2", g.genTagTree(lbl+".any2", 1))
+			}
+		} else if rapid.IntRange(0, 9).Draw(t, lbl+".any?") < 3 {
 			if p.Tags && rapid.Bool().Draw(t, lbl+".anytag?") {
 				if v := g.genTag(lbl+".any", true); v != nil {
 					in.Set("any", v)
